@@ -147,11 +147,14 @@ func (s *Service) create(ctx context.Context, tx gorp.Tx, _channels *[]Channel, 
 // must also create its index. A request forwarded by another node's gateway already
 // carries the index that gateway added.
 func needsCalculatedIndex(channels []Channel, ch Channel) bool {
-	if !ch.IsCalculated() || ch.LocalKey != 0 {
-		return false
-	}
+	return ch.IsCalculated() && ch.LocalKey == 0 && !carriesCalculatedIndex(channels, ch)
+}
+
+// carriesCalculatedIndex reports whether the request already holds the index that goes
+// with the calculated channel ch.
+func carriesCalculatedIndex(channels []Channel, ch Channel) bool {
 	name := ch.Name + calculatedIndexNameSuffix
-	return !lo.ContainsBy(channels, func(c Channel) bool {
+	return lo.ContainsBy(channels, func(c Channel) bool {
 		return c.Name == name && c.IsIndex && c.Virtual && c.Leaseholder == node.KeyFree
 	})
 }
@@ -212,7 +215,7 @@ func (s *Service) createAndUpdateFreeVirtual(
 	indexChannelsForExisting := make([]Channel, 0)
 	existingCalcChannelIndices := make([]int, 0) // Track which channels need linking
 	for i, ch := range *channels {
-		if ch.LocalKey != 0 && ch.IsCalculated() && ch.LocalIndex == 0 {
+		if ch.LocalKey != 0 && ch.IsCalculated() && ch.LocalIndex == 0 && !carriesCalculatedIndex(*channels, ch) {
 			indexCh := Channel{
 				Name:        ch.Name + calculatedIndexNameSuffix,
 				DataType:    telem.TimeStampT,
